@@ -427,10 +427,14 @@ def run_check(prop: str, tier: str) -> int:
                 if len(total['samples']) < 6 and r['samples']:
                     total['samples'].append(r['samples'][-1])
 
-    if errors:
+    if errors and not total['violations']:
         print(f"HARNESS-ERROR property={prop}: {len(errors)} shard(s) failed", flush=True)
         print(errors[0][-3000:], flush=True)
         return 2
+    if errors:
+        # some shards could not run (e.g. the code under check no longer has what a harness hooks into) while others
+        # found violations: those are confirmed and reported below; a run with errors is never reported as a pass
+        print(f"NOTE property={prop}: {len(errors)} shard(s) failed to run: {errors[0][-300:]}", flush=True)
 
     # ---------------- determinism: re-run a seeded subset in a fresh interpreter
     nondet = []
@@ -483,6 +487,10 @@ def run_check(prop: str, tier: str) -> int:
                 unconfirmed.append((sig, min(len(cands), 120), r))
                 continue
         new_violations.append(v)
+    if errors and not new_violations:
+        print(f"HARNESS-ERROR property={prop}: {len(errors)} shard(s) failed", flush=True)
+        print(errors[0][-3000:], flush=True)
+        return 2
     if unconfirmed and not new_violations:
         sig, n, r = unconfirmed[0]
         print(f"NONDETERMINISM property={prop}: violation {sig} did not reproduce in a fresh interpreter "
